@@ -10,6 +10,19 @@ import (
 // TextAlphabet: structural classes of characters for string-valued leaves.
 var TextAlphabet = []string{"", "a", `"`, `\`, "/", "a b", " lead", "trail ", "\t", "\n", "\r", "\u0001", "\u001f", "\u007f", "<>&", "'", "]]>", " ", "é", "中", "\U0001F600", "{}[],:", "null", "5"}
 
+// CharAlphabet: every single code point U+0000..U+00FF as a one-character string embedded in
+// "x?y" (so trimming and position effects do not mask it), plus the encoding boundaries.
+func CharAlphabet() []string {
+	var out []string
+	for r := rune(0); r <= 0xFF; r++ {
+		out = append(out, "x"+string(r)+"y")
+	}
+	for _, r := range []rune{0x100, 0x7FF, 0x800, 0x2028, 0x2029, 0xD7FF, 0xE000, 0xFEFF, 0xFFFD, 0xFFFE, 0xFFFF, 0x10000, 0x10FFFF} {
+		out = append(out, "x"+string(r)+"y")
+	}
+	return out
+}
+
 // FullVals gives the full value alphabet of a leaf (boundary values of its
 // type); used one leaf at a time while the rest of a tree stays at baseline.
 func FullVals(l meta.Leafable) []val.Value {
@@ -19,6 +32,9 @@ func FullVals(l meta.Leafable) []val.Value {
 	switch single {
 	case val.FmtString:
 		for _, s := range TextAlphabet {
+			out = append(out, val.String(s))
+		}
+		for _, s := range CharAlphabet() {
 			out = append(out, val.String(s))
 		}
 	case val.FmtInt8:
